@@ -52,6 +52,7 @@ type env struct {
 	s1, s2                *world.Actor
 	deadline              time.Time
 	capped                bool
+	samples               map[string]int
 }
 
 func must(err error) {
@@ -166,6 +167,18 @@ func (e *env) expired(part string) bool {
 		return true
 	}
 	return false
+}
+
+// sample records at most two samples per part and worker, so that the merged
+// evidence shows all three parts.
+func (e *env) sample(part string, v interface{}) {
+	if e.samples == nil {
+		e.samples = map[string]int{}
+	}
+	if e.samples[part] < 2 {
+		e.samples[part]++
+		e.r.Sample(v)
+	}
 }
 
 func (e *env) count(k string) {
